@@ -294,6 +294,25 @@ pub fn write_instrs(
     Ok(())
 }
 
+/// Helper for [`InstrFormat::write_instr`] implementations: convert a field of a [`RawInstr`] to the (narrower) integer
+/// type that a format stores it as, failing with an error rather than silently writing a different value.
+pub fn header_field<T: TryFrom<i64>>(emitter: &dyn Emitter, what: &str, value: impl Into<i64>) -> Result<T, crate::error::ErrorReported> {
+    let value = value.into();
+    T::try_from(value).map_err(|_| emitter.as_sized().emit(error!(
+        "{what} {value} is too large to be stored in this format",
+    )))
+}
+
+/// Like [`header_field`] for opcodes stored in a single byte. (these are read back sign-extended, so both
+/// `0..=255` and the 16-bit forms of `-128..=-1` are representable)
+pub fn byte_opcode(emitter: &dyn Emitter, opcode: raw::Opcode) -> Result<u8, crate::error::ErrorReported> {
+    if opcode <= 0xFF || opcode >= 0xFF80 {
+        Ok(opcode as u8)
+    } else {
+        Err(emitter.as_sized().emit(error!("opcode {opcode} is too large to be stored in this format")))
+    }
+}
+
 // =============================================================================
 // Hooks for use during raising/lowering
 
